@@ -128,9 +128,11 @@ def tseqStep (c : Codec K) (regs : List (Nat × TProf K)) : PyVal → Option (Li
     let tp ← getTab regs t.toNat
     let xs ← probes.mapM c.dec
     let tq := tp.touch n
-    let p ← tq.column n
-    pure (setTab regs t.toNat tq,
-          .list [.str "q", .list (xs.map fun x => encOpt c (p.below x)), .list (xs.map fun x => encOpt c (p.above x))])
+    match tq.column n with
+    | none => pure (regs, .list [.str "nocol"])  -- the model's table has no such column: a disagreement, not a malformed request
+    | some p =>
+      pure (setTab regs t.toNat tq,
+            .list [.str "q", .list (xs.map fun x => encOpt c (p.below x)), .list (xs.map fun x => encOpt c (p.above x))])
   | _ => none
 
 def runTseq (c : Codec K) : List (Nat × TProf K) → List PyVal → Option (List PyVal)
